@@ -1,12 +1,153 @@
 import DS.Lemmas.Lattice
+import DS.Props.C01
 
+/-!
+# C10 — a lattice's derived quantities are coherent after any update history
+
+The model (`DS/Model/Lattice.lean`) writes `setLatPar` and `setLatBase` as the sequence of attribute assignments of
+the Python methods on an existing object, and a history as a list of `Op`s on a world of objects
+(constructors, copy construction, `reciprocal`, `setLatPar` with any subset of its seven arguments, property
+assignment, `setLatBase`).  "Valid" (`ValidOp`, `ValidRun`): every cell that results has positive lengths, angles in
+(0°, 180°), positive volume, rotations are proper, bases are right-handed; a call that raises is outside the
+quantifier (the real object is then left half-updated).
+-/
 namespace DS.Props.C10
-open DS
+open DS DS.Lattice Real
 
-/-- `setLatPar` with any subset of its seven arguments refreshes every cached attribute -/
-theorem setLatPar_refreshes_all (L : Lattice ℝ) (p : Lattice.ParArgs ℝ) :
-    L.setLatPar p = Lattice.ofPar (p.a.getD L.a) (p.b.getD L.b) (p.c.getD L.c) (p.alpha.getD L.alpha)
+/-! ## both update paths refresh every cached attribute (no hypotheses, any scalar type) -/
+
+/-- `setLatPar` with any subset of its seven arguments: the result is the lattice built from the merged
+parameters; nothing else of the previous state survives -/
+theorem setLatPar_refreshes_all (L : Lattice ℝ) (p : ParArgs ℝ) :
+    L.setLatPar p = ofPar (p.a.getD L.a) (p.b.getD L.b) (p.c.getD L.c) (p.alpha.getD L.alpha)
       (p.beta.getD L.beta) (p.gamma.getD L.gamma) (p.baserot.getD L.baserot) :=
   Lattice.setLatPar_eq L p
+
+/-- `setLatBase`: the result does not depend on the previous state at all -/
+theorem setLatBase_refreshes_all (L : Lattice ℝ) (B : Mat3 ℝ) : L.setLatBase B = ofBase B :=
+  Lattice.setLatBase_eq L B
+
+/-! ## coherence after any valid history -/
+
+/-- **coherent**: after any valid operation history every cached attribute of every object equals that of the
+lattice `setLatPar` builds from the object's current parameters and rotation (all 32 fields at once) -/
+theorem coherent (ops : List (Op ℝ)) (w : List (Lattice ℝ)) (hv : ValidRun [] ops) (hr : run [] ops = some w) :
+    ∀ L ∈ w, L = ofPar L.a L.b L.c L.alpha L.beta L.gamma L.baserot :=
+  fun L hL => (run_wf ops [] w (fun _ h => absurd h List.not_mem_nil) hv hr L hL).coherent
+
+/-- the same, field by field: recomputing everything (`refresh`, i.e. `setLatPar()` without arguments) changes nothing -/
+theorem coherent_refresh (ops : List (Op ℝ)) (w : List (Lattice ℝ)) (hv : ValidRun [] ops) (hr : run [] ops = some w) :
+    ∀ L ∈ w, L.refresh = L := by
+  intro L hL
+  rw [refresh_eq]; exact (coherent ops w hv hr L hL).symm
+
+/-- the invariant also carried through the induction: the current parameters are a valid cell and the stored
+rotation is proper (also after `setLatBase` and `reciprocal`), so the C01 theorems apply to every object reached -/
+theorem reachable_valid (ops : List (Op ℝ)) (w : List (Lattice ℝ)) (hv : ValidRun [] ops) (hr : run [] ops = some w) :
+    ∀ L ∈ w, ValidPar L.a L.b L.c L.alpha L.beta L.gamma ∧ IsRot L.baserot ∧ L.base.mul L.recbase = Mat3.one := by
+  intro L hL
+  have h := run_wf ops [] w (fun _ h => absurd h List.not_mem_nil) hv hr L hL
+  refine ⟨h.par, h.rot, ?_⟩
+  rw [h.coherent]; exact Lattice.base_mul_recbase (valid_ofPar h.par h.rot)
+
+/-- one step preserves the invariant (the induction step, for every kind of operation) -/
+theorem step_preserves {w w' : List (Lattice ℝ)} {op : Op ℝ} (hw : ∀ L ∈ w, WF L) (hop : ValidOp w op)
+    (hs : step w op = some w') : ∀ L ∈ w', WF L := step_wf hw hop hs
+
+/-! ## the two views -/
+
+/-- base vectors of a lattice given by parameters describe that lattice: `Lattice(base=lat.base) = lat` -/
+theorem two_views_base {a b c al be ga : ℝ} {Q : Mat3 ℝ} (h : ValidPar a b c al be ga) (hQ : IsRot Q) :
+    ofBase (ofPar a b c al be ga Q).base = ofPar a b c al be ga Q := ofBase_ofPar_base h hQ
+
+/-- parameters and rotation of a lattice given by base vectors describe that lattice -/
+theorem two_views_par {B : Mat3 ℝ} (hB : 0 < B.det) :
+    ofPar (ofBase B).a (ofBase B).b (ofBase B).c (ofBase B).alpha (ofBase B).beta (ofBase B).gamma (ofBase B).baserot
+      = ofBase B := (ofBase_coherent hB).symm
+
+/-! ## reciprocal lattice, copy -/
+
+/-- the cell parameters (and cosines, sines, base) of `reciprocal()` are the cached reciprocal quantities -/
+theorem recip_params {L : Lattice ℝ} (h : WF L) :
+    L.reciprocal.a = L.ar ∧ L.reciprocal.b = L.br ∧ L.reciprocal.c = L.cr ∧
+    L.reciprocal.alpha = L.alphar ∧ L.reciprocal.beta = L.betar ∧ L.reciprocal.gamma = L.gammar ∧
+    L.reciprocal.ca = L.car ∧ L.reciprocal.cb = L.cbr ∧ L.reciprocal.cg = L.cgr ∧
+    L.reciprocal.sa = L.sar ∧ L.reciprocal.sb = L.sbr ∧ L.reciprocal.sg = L.sgr ∧
+    L.reciprocal.base = L.recbase.transpose := Lattice.recip_params h
+
+/-- the reciprocal of the reciprocal has the original base vectors, hence (two views) is the original lattice
+whenever the original was given by its base vectors -/
+theorem recip_recip {L : Lattice ℝ} (h : WF L) : L.reciprocal.reciprocal.base = L.base := recip_recip_base h
+
+theorem recip_recip_ofBase {B : Mat3 ℝ} (hB : 0 < B.det) : (ofBase B).reciprocal.reciprocal = ofBase B := by
+  have h := recip_recip_base (wf_ofBase hB)
+  have e : (ofBase B).reciprocal.reciprocal = ofBase (ofBase B).reciprocal.reciprocal.base := rfl
+  rw [e, h]; rfl
+
+/-- **reciprocal of the reciprocal is the original**, all attributes, for every well-formed lattice -/
+theorem recip_recip_full {L : Lattice ℝ} (h : WF L) : L.reciprocal.reciprocal = L := by
+  have hb := recip_recip_base h
+  have e : L.reciprocal.reciprocal = ofBase L.reciprocal.reciprocal.base := rfl
+  rw [e, hb]
+  have hc := h.coherent
+  rw [hc]
+  exact ofBase_ofPar_base h.par h.rot
+
+/-- the reciprocal is again a well-formed (coherent, valid) lattice -/
+theorem recip_wf {L : Lattice ℝ} (h : WF L) : WF L.reciprocal := wf_reciprocal h
+
+/-- copy construction: a new object with exactly the attributes of the original; all others unchanged -/
+theorem copy_eq {w w' : List (Lattice ℝ)} {i : Nat} (h : step w (.copy i) = some w') :
+    w'.length = w.length + 1 ∧ w'[w.length]? = w[i]? ∧ ∀ j, j < w.length → w'[j]? = w[j]? := Lattice.copy_eq h
+
+/-- updating one object (e.g. a copy) never changes another (e.g. its original) -/
+theorem update_independent {w w' : List (Lattice ℝ)} {i : Nat} (p : ParArgs ℝ) (h : step w (.setPar i p) = some w')
+    (j : Nat) (hj : j ≠ i) : w'[j]? = w[j]? := Lattice.update_independent p h j hj
+
+theorem setBase_independent {w w' : List (Lattice ℝ)} {i : Nat} (B : Mat3 ℝ) (h : step w (.setBase i B) = some w')
+    (j : Nat) (hj : j ≠ i) : w'[j]? = w[j]? := Lattice.setBase_independent B h j hj
+
+/-! ## non-vacuity -/
+
+open DS.Props.C01 in
+/-- well-formed objects exist on both paths -/
+example : WF (ofPar 3 4 5 90 90 60 exRot) ∧ WF (ofBase exBase) ∧ WF (ofBase exBase).reciprocal :=
+  ⟨wf_ofPar exPar_valid exRot_isRot, wf_ofBase exBase_det, wf_reciprocal (wf_ofBase exBase_det)⟩
+
+theorem exPar2_valid : ValidPar 2 4 5 90 90 60 := by
+  refine ⟨by norm_num, by norm_num, by norm_num, by norm_num, by norm_num, by norm_num, by norm_num, by norm_num, by norm_num, ?_⟩
+  rw [C01.cos60, C01.cos90]; norm_num
+
+/-- a valid history that uses every kind of operation:
+`Lattice(3,4,5,90,90,60)`, `.a = 2`, `Lattice(base=B)`, `reciprocal()`, copy, `setLatBase(B)`, `Lattice()`, `setLatPar(all seven arguments)` -/
+def exOps : List (Op ℝ) :=
+  [.newPar 3 4 5 90 90 60 none, .setProp 0 0 2, .newBase C01.exBase, .recip 1, .copy 0, .setBase 0 C01.exBase,
+   .newDefault, .setPar 0 { a := some 3, b := some 4, c := some 5, alpha := some 90, beta := some 90, gamma := some 60, baserot := some C01.exRot }]
+
+theorem exOps_valid : ValidRun [] exOps := by
+  refine ⟨⟨C01.exPar_valid, isRot_one⟩, fun w1 h1 => ?_⟩
+  simp only [step, Option.some.injEq] at h1; subst h1
+  refine ⟨?_, fun w2 _ => ?_⟩
+  · intro L p hL hp
+    simp only [List.nil_append, List.getElem?_cons_zero, Option.some.injEq] at hL
+    simp only [propArgs, Option.some.injEq] at hp
+    subst hL; subst hp
+    exact ⟨exPar2_valid, isRot_one⟩
+  refine ⟨C01.exBase_det, fun w3 _ => ?_⟩
+  refine ⟨trivial, fun w4 _ => ?_⟩
+  refine ⟨trivial, fun w5 _ => ?_⟩
+  refine ⟨C01.exBase_det, fun w6 _ => ?_⟩
+  refine ⟨trivial, fun w7 _ => ?_⟩
+  refine ⟨?_, fun w8 _ => trivial⟩
+  intro L _
+  exact ⟨C01.exPar_valid, C01.exRot_isRot⟩
+
+theorem exOps_runs : ∃ w, run [] exOps = some w ∧ w.length = 5 := by
+  simp [exOps, run, step, propArgs]
+
+/-- so `coherent` is not vacuous -/
+example : ∃ w, run [] exOps = some w ∧ ∀ L ∈ w, L = ofPar L.a L.b L.c L.alpha L.beta L.gamma L.baserot := by
+  obtain ⟨w, hw, -⟩ := exOps_runs
+  exact ⟨w, hw, coherent exOps w exOps_valid hw⟩
 
 end DS.Props.C10
